@@ -868,3 +868,96 @@ def run_static_flag(tier, log, seed):
     else:
         res.update(status="pass")
     return res
+
+
+# ------------------------------------------------------------------------------------------------ C09 (EIP-7623 floor step)
+def run_floor_step(tier, log, seed):
+    """The floor step of Evm::transact_preverified_inner, read off MIR and compared by SMT with used' = max(spent - refund, floor)."""
+    text = mir.dump("revm", log)
+    funcs = mir.parse_functions(text)
+    cands = [f for n, fl in funcs.items() for f in fl if n.endswith("::transact_preverified_inner")]
+    duo = smt.Duo(timeout_s=30)
+    res = dict(queries=0, solver_s=0.0, engine="mir structure scan -> smtlib (z3 4.8.12 + cvc5 1.0)")
+    if len(cands) != 1:
+        duo.close()
+        res.update(status="inconclusive", reason=f"transact_preverified_inner: {len(cands)} MIR bodies")
+        return res
+    fn = cands[0]
+    floor_re = r"copy \(_2\.1: u64\)"   # InitialAndFloorGas.floor_gas of the parameter
+    site = None
+    for b in fn.blocks.values():
+        if b.term and re.match(r"^_\d+ = Gas::spent_sub_refunded\(", b.term):
+            d = re.match(r"^(_\d+) = ", b.term).group(1)
+            nxt = [s for l, s in mir.successors(b.term) if l == "return"]
+            if nxt:
+                site = (d, nxt[0])
+    if not site:
+        duo.close()
+        res.update(status="inconclusive", reason="no call to Gas::spent_sub_refunded in transact_preverified_inner")
+        return res
+    d, bbc = site
+    blk = fn.blocks[bbc]
+    cmp_ = None
+    for s in blk.stmts:
+        m = re.match(r"^(_\d+) = (Lt|Le|Gt|Ge)\((?:move|copy) (_\d+), (?:move|copy) (_\d+)\)$", s)
+        if m:
+            cmp_ = m.groups()
+    sw = re.match(r"^switchInt\(move (_\d+)\) -> \[0: (bb\d+), otherwise: (bb\d+)\]$", blk.term or "")
+    if not cmp_ or not sw or sw.group(1) != cmp_[0]:
+        duo.close()
+        res.update(status="inconclusive", reason="floor comparison not found right after spent_sub_refunded")
+        return res
+
+    def sym(local):
+        if local == d:
+            return "used"
+        ds = [s for s in blk.stmts if s.startswith(local + " = ")]
+        if len(ds) == 1 and re.search(floor_re, ds[0]):
+            return "floor"
+        return "unk"
+    a, b_ = sym(cmp_[2]), sym(cmp_[3])
+    opm = {"Lt": "<", "Le": "<=", "Gt": ">", "Ge": ">="}[cmp_[1]]
+    cond = f"({opm} {a} {b_})"
+    # then-branch: follow the straight-line chain and collect set_spent / set_refund arguments
+    set_spent = set_refund = None
+    cur = sw.group(3)
+    for _ in range(8):
+        bb = fn.blocks[cur]
+        t = bb.term or ""
+        m = re.match(r"^_\d+ = Gas::set_spent\((?:move|copy) _\d+, (.+?)\) -> \[return: (bb\d+)", t)
+        if m:
+            arg = m.group(1)
+            mm = re.match(r"^(?:move|copy) (_\d+)$", arg)
+            ds = [s for s in bb.stmts if mm and s.startswith(mm.group(1) + " = ")]
+            set_spent = "floor" if (ds and re.search(floor_re, ds[0])) or re.search(floor_re, arg) else "unk"
+        m2 = re.match(r"^_\d+ = Gas::set_refund\((?:move|copy) _\d+, (.+?)\) -> \[return: (bb\d+)", t)
+        if m2:
+            set_refund = "0" if m2.group(1) == "const 0_i64" else "unk"
+        nx = [s for l, s in mir.successors(t) if l in ("return", "goto")]
+        if not nx or nx[0] == sw.group(2):
+            break
+        cur = nx[0]
+    # model: used' = if cond { set_spent(X) ; refund := R ; min(X, limit) - R } else { used }
+    decls = ["(declare-const used Int)", "(declare-const floor Int)", "(declare-const limit Int)", "(declare-const unk Int)"]
+    pre = ["(<= 0 used)", "(<= used limit)", "(<= 0 floor)", "(<= floor limit)", "(<= limit 18446744073709551615)"]
+    if set_spent is None or set_refund is None:
+        then_used = "unk"
+    else:
+        sp = "floor" if set_spent == "floor" else "unk"
+        rf = "0" if set_refund == "0" else "unk"
+        then_used = f"(- (ite (<= {sp} limit) {sp} limit) {rf})"
+    after = f"(ite {cond} {then_used} used)"
+    want = "(ite (< used floor) floor used)"
+    v, model, detail = duo.check(decls, pre + [f"(not (= {after} {want}))"], want_model_of=("used", "floor", "limit"))
+    res.update(queries=duo.queries, solver_s=duo.time,
+               bounds=f"floor step read from MIR: if {cmp_[1]}({a}, {b_}) then set_spent({set_spent}); set_refund({set_refund}) -> {v}",
+               detail="all 0 <= used <= limit, 0 <= floor <= limit <= u64::MAX; Gas::set_spent / set_refund / spent_sub_refunded semantics are those decided in C13")
+    duo.close()
+    if v == "unsat":
+        res.update(status="pass")
+    elif v == "sat":
+        # no native scenario drives a whole transaction here: a structural disagreement is reported as inconclusive, never as a violation
+        res.update(status="inconclusive", reason=f"floor step of transact_preverified_inner no longer matches max(spent - refund, floor): {res['bounds']} model {model}")
+    else:
+        res.update(status="inconclusive", reason=str(detail))
+    return res
